@@ -135,10 +135,11 @@ structure Inv (c : Cfg) (s : State) : Prop where
   tmp_iff : s.tmpLive = false ↔ (deferred c = true ∧ s.pc 0 ≠ Pc.gStart)
   built_val : c.argsByRef = false → s.builtLive = true
   built_ctx : deferred c = false → s.builtLive = true
+  pre_winner : c.pre.isSome = true → s.winner = some Win.factory
 
 theorem inv_init (c : Cfg) (hwf : c.WF) : Inv c (init c) := by
   have hpos := hwf.pos
-  refine ⟨?_, ?_, ?_, ?_, ?_, ?_, ?_, ?_, ?_, ?_, ?_, ?_, ?_, ?_, ?_, ?_, ?_, ?_, ?_, ?_, ?_, ?_, ?_, ?_⟩ <;> simp only [init, initWith]
+  refine ⟨?_, ?_, ?_, ?_, ?_, ?_, ?_, ?_, ?_, ?_, ?_, ?_, ?_, ?_, ?_, ?_, ?_, ?_, ?_, ?_, ?_, ?_, ?_, ?_, ?_⟩ <;> simp only [init, initWith]
   · intro t ht; simp; omega
   · intro t
     by_cases h : t < c.n
@@ -200,6 +201,7 @@ theorem inv_init (c : Cfg) (hwf : c.WF) : Inv c (init c) := by
   · simp [hpos, initPc]
   · simp
   · simp
+  · intro h; simp [h]
 
 end
 
@@ -208,8 +210,8 @@ theorem slot_cases (s : State) : s.slot = Slot.null ∨ s.slot = Slot.node ∨ s
   cases s.slot <;> simp
 
 macro "inv_tac" h:ident : tactic => `(tactic| (
-  obtain ⟨h1, h2, h3, h4, h5, h6, h7, h8, h9, h10, h11, h12, h13, h14, h15, h16, h17, h18, h19, h20, h21, h22, h23, h24⟩ := $h
-  refine ⟨?_, ?_, ?_, ?_, ?_, ?_, ?_, ?_, ?_, ?_, ?_, ?_, ?_, ?_, ?_, ?_, ?_, ?_, ?_, ?_, ?_, ?_, ?_, ?_⟩ <;> simp only [setPc_tmpLive, setPc_built, setPc_builtLive, setPc_nxt, setPc_pc, setPc_owner, setPc_slot, setPc_payload, setPc_published, setPc_outer, setPc_tok, setPc_calls, setPc_saw, setPc_convIn, setPc_outerSets, setPc_allocs, setPc_frees, setPc_wins, setPc_winner, upd_apply]
+  obtain ⟨h1, h2, h3, h4, h5, h6, h7, h8, h9, h10, h11, h12, h13, h14, h15, h16, h17, h18, h19, h20, h21, h22, h23, h24, h25⟩ := $h
+  refine ⟨?_, ?_, ?_, ?_, ?_, ?_, ?_, ?_, ?_, ?_, ?_, ?_, ?_, ?_, ?_, ?_, ?_, ?_, ?_, ?_, ?_, ?_, ?_, ?_, ?_⟩ <;> simp only [setPc_tmpLive, setPc_built, setPc_builtLive, setPc_nxt, setPc_pc, setPc_owner, setPc_slot, setPc_payload, setPc_published, setPc_outer, setPc_tok, setPc_calls, setPc_saw, setPc_convIn, setPc_outerSets, setPc_allocs, setPc_frees, setPc_wins, setPc_winner, upd_apply]
   all_goals grind [slot_cases, pcOK, whoOK, Who.outside, passed, isResolve, holds, waiting, winPayload]))
 
 variable (c : Cfg) (s : State) (t : Nat)
@@ -394,25 +396,6 @@ theorem inv_casStep (h : Inv c s) (hpc : s.pc 0 = Pc.gCas) : Inv c (casStep c s)
     · rw [if_pos hr]; exact inv_cas_refused c s h hpc hr _
     · rw [if_neg hr]; exact inv_cas_retry c s h hpc hs hr
 
-theorem inv_startStep (hwf : c.WF) (h : Inv c s) (hpc : s.pc 0 = Pc.gStart) : Inv c (startStep c s).1 := by
-  unfold startStep
-  cases ha : c.adapter with
-  | cbAwait =>
-    cases hs : s.slot with
-    | ready => exact inv_start_ready c s h hpc hs _
-    | null => exact inv_start_cas c s h hpc
-    | node => exact inv_start_cas c s h hpc
-  | callAwt =>
-    cases hs : s.slot with
-    | ready => exact inv_start_ready c s h hpc hs _
-    | null => exact inv_start_cas c s h hpc
-    | node => exact inv_start_cas c s h hpc
-  | mkProm =>
-    exact inv_contReg c _ (inv_start_mk c s hwf h hpc ha) (by simp)
-  | discard => exact inv_casStep c _ (inv_start_cas c s h hpc) (by simp)
-  | conv => exact inv_casStep c _ (inv_start_cas c s h hpc) (by simp)
-  | callFn => exact inv_casStep c _ (inv_start_cas c s h hpc) (by simp)
-
 theorem inv_resolveStep (h : Inv c s) (dt : Bool) (hpc : s.pc t = Pc.rResolve dt) : Inv c (resolveStep c s t dt).1 := by
   unfold resolveStep
   cases hs : s.slot with
@@ -434,6 +417,31 @@ theorem inv_compStep (h : Inv c s) (k : Nat) (w : Who) (hpc : s.pc t = Pc.comp k
       exact inv_contReg c _ h1 (by simp [afterPc])
     | res => exact inv_retStep c _ t h1 false (by simp [afterPc])
     | dt => exact inv_retStep c _ t h1 true (by simp [afterPc])
+
+theorem inv_startStep (hwf : c.WF) (h : Inv c s) (hpc : s.pc 0 = Pc.gStart) : Inv c (startStep c s).1 := by
+  unfold startStep
+  cases ha : c.adapter with
+  | cbAwait =>
+    cases hs : s.slot with
+    | ready =>
+      simp only
+      by_cases hth : c.startThrew = true
+      · rw [if_pos hth]
+        exact inv_compStep c _ 0 (inv_start_ready c s h hpc hs 0) 0 Who.reg (by simp)
+      · rw [if_neg hth]; exact inv_start_ready c s h hpc hs _
+    | null => exact inv_start_cas c s h hpc
+    | node => exact inv_start_cas c s h hpc
+  | callAwt =>
+    cases hs : s.slot with
+    | ready => exact inv_start_ready c s h hpc hs _
+    | null => exact inv_start_cas c s h hpc
+    | node => exact inv_start_cas c s h hpc
+  | mkProm =>
+    exact inv_contReg c _ (inv_start_mk c s hwf h hpc ha) (by simp)
+  | discard => exact inv_casStep c _ (inv_start_cas c s h hpc) (by simp)
+  | conv => exact inv_casStep c _ (inv_start_cas c s h hpc) (by simp)
+  | callFn => exact inv_casStep c _ (inv_start_cas c s h hpc) (by simp)
+  | mkCb => exact inv_casStep c _ (inv_start_cas c s h hpc) (by simp)
 
 theorem dtorReady_pub (h : dtorReady c s = true) : s.published = true := by
   unfold dtorReady at h
